@@ -492,7 +492,7 @@ def main(chk, args):
     build = common.build_and_audit("C07")
     if not build.driver_ok:
         chk.finish(build, RULE)
-    n = chk.scale(60 if chk.tier == "quick" else 400)
+    n = chk.scale(110 if chk.tier == "quick" else 400)
     for _ in range(n):
         run_case(chk, gen_case(chk.rng))
     lc = common.leanchecker("C07") if chk.tier == "thorough" else None
